@@ -41,13 +41,28 @@ RowClause(c, r) ==
      ELSE IF Sl = {} THEN (IF r.flux_nan /\ r.area_nan /\ r.min_nan /\ r.bkgsum_nan THEN "ok" ELSE "completely_masked_source_is_nan")
      ELSE IF r.flux_nan \/ r.area_nan \/ r.min_nan THEN "completely_masked_source_is_nan"
      ELSE IF r.area # Cardinality(Sl) THEN "area_counts_unmasked_finite_pixels"
-     ELSE IF ~Near(r.flux_k, S * SumG(c.data, Sl), 2) THEN "segment_flux_is_sum_over_segment_pixels"
+     \* segment_flux = sum of the data over S(l) minus (number of those pixels) x (the source's local background, 0 when not requested)
+     ELSE IF ~Near(r.flux_k, S * SumG(c.data, Sl) - Cardinality(Sl) * r.localbkg_k, 2 + Cardinality(Sl)) THEN "segment_flux_is_sum_over_segment_pixels"
      ELSE IF c.has_error /\ ~Near(r.fluxerr2_k, 16 * FoldSet(LAMBDA p, acc : acc + c.err[p[1] + 1][p[2] + 1] * c.err[p[1] + 1][p[2] + 1], 0, Sl), 16) THEN "segment_fluxerr_is_quadrature_sum"
-     ELSE IF r.min_k # S * Min(vals) \/ r.max_k # S * Max(vals) THEN "min_max_over_segment_pixels"
+     ELSE IF ~Near(r.min_k, S * Min(vals) - r.localbkg_k, 1) \/ ~Near(r.max_k, S * Max(vals) - r.localbkg_k, 1) THEN "min_max_over_segment_pixels"
      ELSE IF r.minidx # FirstWith(c.data, Sl, Min(vals)) \/ r.maxidx # FirstWith(c.data, Sl, Max(vals)) THEN "min_max_indices_first_occurrence_in_image_coordinates"
      ELSE IF c.has_bkg /\ (~Near(r.bkgsum_k, S * SumG(c.bkg, Sl), 2) \/ ~Near(r.bkgmean_k * Cardinality(Sl), S * SumG(c.bkg, Sl), 2 * Cardinality(Sl))) THEN "background_sum_mean_over_segment_pixels"
      ELSE IF r.moments # <<m00, m01, m10, m11, m02, m20>> THEN "moments_of_nonnegative_convolved_segment_pixels"
      ELSE IF m00 > 0 /\ (r.cen_nan \/ ~Near((r.xcen_k - S * bx[3]) * m00, S * m01, 2 * m00) \/ ~Near((r.ycen_k - S * bx[1]) * m00, S * m10, 2 * m00)) THEN "centroid_is_moment_ratio_plus_bbox_origin"
+     \* second central moments (covariance) from the raw moments, in 1/256 units:  covar_xx * m00^2 = m02 * m00 - m01^2, etc.
+     \* sources that are clearly not thin (det >= 2/144) carry no regularisation; clearly thin ones (det < 1/288) get the same k/12 on both diagonals
+     ELSE IF m00 > 0 /\ ~r.cov_nan /\
+             (LET A == m02 * m00 - m01 * m01   B == m20 * m00 - m10 * m10   C == m11 * m00 - m01 * m10
+                  mm == m00 * m00
+                  small == A < 30000 /\ B < 30000 /\ Abs(C) < 30000 /\ mm < 30000          \* products stay inside 32 bits
+                  det == A * B - C * C                                                   \* determinant * m00^4
+                  regular == det >= (2 * mm * mm) \div 144 + 1                            \* det >= 2/144
+                  thin == det < (mm * mm) \div 288                                        \* det < 1/288
+                  dx == r.cov[1] * mm - 256 * A   dy == r.cov[3] * mm - 256 * B   dxy == r.cov[2] * mm - 256 * C
+                  tol == 3 * mm
+              IN small /\ (\/ ~Near(dxy, 0, tol)
+                           \/ (regular /\ (~Near(dx, 0, tol) \/ ~Near(dy, 0, tol)))
+                           \/ (thin /\ (~Near(dx, dy, 2 * tol) \/ dx < (256 * mm) \div 12 - tol)))) THEN "covariance_is_central_second_moment_of_own_pixels"
      ELSE "ok"
 Clause(c) == IF c.kind = "pair" THEN (IF c.a = c.b THEN "ok" ELSE c.rel)
              ELSE IF Len(c.rows) # Cardinality(({c.segm[a][b] : a \in 1..Len(c.segm), b \in 1..Len(c.segm[1])}) \ {0}) THEN "one_row_per_label"
